@@ -199,6 +199,13 @@ class Evaluator(object):
         self.events.append(ev)
         return ev
 
+    def log_only(self, fnpath):
+        cache = self.__dict__.setdefault('_log_only', {})
+        if fnpath not in cache:
+            f = self.fns.get(fnpath) if isinstance(fnpath, str) else None
+            cache[fnpath] = H.log_only_locals(f['hir'], self.fns, self.inline_filter) if f is not None and 'hir' in f else set()
+        return cache[fnpath]
+
     def child(self):
         """A side-effect-free reader for conditions and subjects (same constants policy, no inlining)."""
         c = Evaluator(self.fns, inline_depth=0)
@@ -369,6 +376,8 @@ class Evaluator(object):
         last = ('unit',)
         for s in node['stmts']:
             sk = s['k']
+            if sk == 'Let' and s.get('pat', {}).get('k') == 'Bind' and s['pat']['id'] in self.log_only(fn):
+                continue  # computed for a log line only
             if sk == 'Let':
                 val = None
                 if s.get('init') is not None:
